@@ -799,6 +799,7 @@ def make_step(rec, shard, tier):
     sub = shard[0]
     name = "/".join(str(x) for x in shard)
     seen = set()
+    bad = set()
 
     def fail(cat, ms_key, hist_, op, problem, kind=None):
         sig = "%s %s: %s -> %s" % (cat, name, op_text(op), problem)
@@ -1044,6 +1045,8 @@ def make_step(rec, shard, tier):
                 fail("value", None, hist_, op, "read returned %r, reference %r" % (got, want.effective()))
                 return None
         key = repr((name, canon(ctx)))
+        if key in bad:
+            return None  # this state already failed its load_history probe (reported once)
         if key not in seen:
             seen.add(key)
             if nontrivial:
@@ -1060,6 +1063,7 @@ def make_step(rec, shard, tier):
             else:
                 m3.load()
             if not check_histories(ctx, m3, hist_, op, load=True):
+                bad.add(key)
                 return None
         return m2, key
 
